@@ -962,6 +962,9 @@ func (tr *trans) funcEnv(st State) *Env {
 		} else {
 			env.vars[fv.Name()] = env.goSV(tr.val(fv), fv.Type())
 		}
+		// captured_<name>: the captured variable under a name that cannot collide with the keywords of a
+		// specification (a closure capturing a variable called `result`)
+		env.vars["captured_"+fv.Name()] = env.vars[fv.Name()]
 	}
 	for name, fr := range tr.pure {
 		env.vars[name] = SV{kind: "fn", fn: fr, sort: "fn"}
